@@ -11,8 +11,8 @@ Ltac guard_shape := vm_compute; reflexivity.
 
 (* ---- attributes.go ---- *)
 Example shape_ParseAttributes :
-  (gexpr_is G_ParseAttributes 0 "len(b)" && gexpr_is G_ParseAttributes 1 "len(b)" &&
-   gexpr_is G_ParseAttributes 2 "length" && gexpr_is G_ParseAttributes 3 "length")%bool = true.
+  (gexpr_is G_ParseAttributes 0 "len($0)" && gexpr_is G_ParseAttributes 1 "len($0)" &&
+   gexpr_is G_ParseAttributes 2 "int($0[1])" && gexpr_is G_ParseAttributes 3 "int($0[1])")%bool = true.
 Proof. guard_shape. Qed.
 Lemma g_ParseAttributes_0 x : holds (gd G_ParseAttributes 0) x = (x >? 0). Proof. reflexivity. Qed.
 Lemma g_ParseAttributes_1 x : holds (gd G_ParseAttributes 1) x = (x <? 2). Proof. reflexivity. Qed.
@@ -37,27 +37,27 @@ Lemma g_EncodedLen_2 x : holds (gd G_AttributesEncodedLen 2) x = (x >? 253). Pro
 
 (* ---- packet.go ---- *)
 Example shape_Parse :
-  (gexpr_is G_Parse 0 "len(b)" && gexpr_is G_Parse 1 "length" && gexpr_is G_Parse 2 "length")%bool = true.
+  (gexpr_is G_Parse 0 "len($0)" && gexpr_is G_Parse 1 "int(binary.BigEndian.Uint16($0[2:4]))" && gexpr_is G_Parse 2 "int(binary.BigEndian.Uint16($0[2:4]))")%bool = true.
 Proof. guard_shape. Qed.
 Lemma g_Parse_0 x : holds (gd G_Parse 0) x = (x <? 20). Proof. reflexivity. Qed.
 Lemma g_Parse_1 x : holds (gd G_Parse 1) x = (x <? 20). Proof. reflexivity. Qed.
 Lemma g_Parse_2 x : holds (gd G_Parse 2) x = (x >? 4096). Proof. reflexivity. Qed.
 Lemma k_MaxPacketLength : K_MaxPacketLength = 4096. Proof. reflexivity. Qed.
 
-Example shape_Marshal : gexpr_is G_Packet_MarshalBinary 0 "size" = true.
+Example shape_Marshal : gexpr_is G_Packet_MarshalBinary 0 "20 + attributesLen" = true.
 Proof. guard_shape. Qed.
 Lemma g_Marshal_0 x : holds (gd G_Packet_MarshalBinary 0) x = (x >? 4096). Proof. reflexivity. Qed.
 
 Example shape_IsAuthenticResponse :
-  (gexpr_is G_IsAuthenticResponse 0 "len(response)" && gexpr_is G_IsAuthenticResponse 1 "len(request)" &&
-   gexpr_is G_IsAuthenticResponse 2 "len(secret)")%bool = true.
+  (gexpr_is G_IsAuthenticResponse 0 "len($0)" && gexpr_is G_IsAuthenticResponse 1 "len($1)" &&
+   gexpr_is G_IsAuthenticResponse 2 "len($2)")%bool = true.
 Proof. guard_shape. Qed.
 Lemma g_IsAuthResp_0 x : holds (gd G_IsAuthenticResponse 0) x = (x <? 20). Proof. reflexivity. Qed.
 Lemma g_IsAuthResp_1 x : holds (gd G_IsAuthenticResponse 1) x = (x <? 20). Proof. reflexivity. Qed.
 Lemma g_IsAuthResp_2 x : holds (gd G_IsAuthenticResponse 2) x = (x =? 0). Proof. reflexivity. Qed.
 
 Example shape_IsAuthenticRequest :
-  (gexpr_is G_IsAuthenticRequest 0 "len(request)" && gexpr_is G_IsAuthenticRequest 1 "len(secret)")%bool = true.
+  (gexpr_is G_IsAuthenticRequest 0 "len($0)" && gexpr_is G_IsAuthenticRequest 1 "len($1)")%bool = true.
 Proof. guard_shape. Qed.
 Lemma g_IsAuthReq_0 x : holds (gd G_IsAuthenticRequest 0) x = (x <? 20). Proof. reflexivity. Qed.
 Lemma g_IsAuthReq_1 x : holds (gd G_IsAuthenticRequest 1) x = (x =? 0). Proof. reflexivity. Qed.
@@ -71,16 +71,16 @@ Lemma sw_IsAuthReq_hashed : sw SW_IsAuthenticRequest 0 1 = [4; 40; 43]. Proof. r
 
 (* ---- attribute.go: passwords ---- *)
 Example shape_NewUserPassword :
-  (gexpr_is G_NewUserPassword 0 "len(plaintext)" && gexpr_is G_NewUserPassword 1 "len(secret)" &&
-   gexpr_is G_NewUserPassword 2 "len(requestAuthenticator)")%bool = true.
+  (gexpr_is G_NewUserPassword 0 "len($0)" && gexpr_is G_NewUserPassword 1 "len($1)" &&
+   gexpr_is G_NewUserPassword 2 "len($2)")%bool = true.
 Proof. guard_shape. Qed.
 Lemma g_NewUserPassword_0 x : holds (gd G_NewUserPassword 0) x = (x >? 128). Proof. reflexivity. Qed.
 Lemma g_NewUserPassword_1 x : holds (gd G_NewUserPassword 1) x = (x =? 0). Proof. reflexivity. Qed.
 Lemma g_NewUserPassword_2 x : holds (gd G_NewUserPassword 2) x = negb (x =? 16). Proof. reflexivity. Qed.
 
 Example shape_UserPassword :
-  (gexpr_is G_UserPassword 0 "len(a)" && gexpr_is G_UserPassword 1 "len(a)" && gexpr_is G_UserPassword 2 "len(a) % 16" &&
-   gexpr_is G_UserPassword 3 "len(secret)" && gexpr_is G_UserPassword 4 "len(requestAuthenticator)")%bool = true.
+  (gexpr_is G_UserPassword 0 "len($0)" && gexpr_is G_UserPassword 1 "len($0)" && gexpr_is G_UserPassword 2 "len($0) % 16" &&
+   gexpr_is G_UserPassword 3 "len($1)" && gexpr_is G_UserPassword 4 "len($2)")%bool = true.
 Proof. guard_shape. Qed.
 Lemma g_UserPassword_0 x : holds (gd G_UserPassword 0) x = (x <? 16). Proof. reflexivity. Qed.
 Lemma g_UserPassword_1 x : holds (gd G_UserPassword 1) x = (x >? 128). Proof. reflexivity. Qed.
@@ -89,9 +89,9 @@ Lemma g_UserPassword_3 x : holds (gd G_UserPassword 3) x = (x =? 0). Proof. refl
 Lemma g_UserPassword_4 x : holds (gd G_UserPassword 4) x = negb (x =? 16). Proof. reflexivity. Qed.
 
 Example shape_NewTunnelPassword :
-  (gexpr_is G_NewTunnelPassword 0 "len(password)" && gexpr_is G_NewTunnelPassword 1 "len(salt)" &&
-   gexpr_is G_NewTunnelPassword 2 "salt[0] & 0x80" &&
-   gexpr_is G_NewTunnelPassword 3 "len(secret)" && gexpr_is G_NewTunnelPassword 4 "len(requestAuthenticator)")%bool = true.
+  (gexpr_is G_NewTunnelPassword 0 "len($0)" && gexpr_is G_NewTunnelPassword 1 "len($1)" &&
+   gexpr_is G_NewTunnelPassword 2 "$1[0] & 0x80" &&
+   gexpr_is G_NewTunnelPassword 3 "len($2)" && gexpr_is G_NewTunnelPassword 4 "len($3)")%bool = true.
 Proof. guard_shape. Qed.
 Lemma g_NewTunnelPassword_1 x : holds (gd G_NewTunnelPassword 1) x = negb (x =? 2). Proof. reflexivity. Qed.
 Lemma g_NewTunnelPassword_2 x : holds (gd G_NewTunnelPassword 2) x = negb (x =? 128). Proof. reflexivity. Qed.
@@ -99,9 +99,9 @@ Lemma g_NewTunnelPassword_3 x : holds (gd G_NewTunnelPassword 3) x = (x =? 0). P
 Lemma g_NewTunnelPassword_4 x : holds (gd G_NewTunnelPassword 4) x = negb (x =? 16). Proof. reflexivity. Qed.
 
 Example shape_TunnelPassword :
-  (gexpr_is G_TunnelPassword 0 "len(a)" && gexpr_is G_TunnelPassword 1 "len(a)" && gexpr_is G_TunnelPassword 2 "(len(a) - 2) % 16" &&
-   gexpr_is G_TunnelPassword 3 "len(secret)" && gexpr_is G_TunnelPassword 4 "len(requestAuthenticator)" &&
-   gexpr_is G_TunnelPassword 5 "a[0] & 0x80")%bool = true.
+  (gexpr_is G_TunnelPassword 0 "len($0)" && gexpr_is G_TunnelPassword 1 "len($0)" && gexpr_is G_TunnelPassword 2 "(len($0) - 2) % 16" &&
+   gexpr_is G_TunnelPassword 3 "len($1)" && gexpr_is G_TunnelPassword 4 "len($2)" &&
+   gexpr_is G_TunnelPassword 5 "$0[0] & 0x80")%bool = true.
 Proof. guard_shape. Qed.
 Lemma g_TunnelPassword_0 x : holds (gd G_TunnelPassword 0) x = (x >? 252). Proof. reflexivity. Qed.
 Lemma g_TunnelPassword_1 x : holds (gd G_TunnelPassword 1) x = (x <? 18). Proof. reflexivity. Qed.
@@ -115,15 +115,15 @@ Lemma g_NewTunnelPassword_0 x : holds (gd G_NewTunnelPassword 0) x = (x >? 239).
 
 (* ---- attribute.go: typed codecs ---- *)
 Example shape_codecs :
-  (gexpr_is G_Integer 0 "len(a)" && gexpr_is G_Short 0 "len(a)" && gexpr_is G_Integer64 0 "len(a)" &&
-   gexpr_is G_NewString 0 "len(s)" && gexpr_is G_NewBytes 0 "len(b)" && gexpr_is G_IPAddr 0 "len(a)" &&
-   gexpr_is G_IPv6Addr 0 "len(a)" && gexpr_is G_IFID 0 "len(a)" && gexpr_is G_NewIFID 0 "len(addr)" &&
-   gexpr_is G_Date 0 "len(a)" && gexpr_is G_NewDate 0 "unix" && gexpr_is G_NewDate 1 "unix" &&
-   gexpr_is G_VendorSpecific 0 "len(a)" && gexpr_is G_NewVendorSpecific 0 "len(value)" &&
-   gexpr_is G_NewVendorSpecific 1 "len(value)" && gexpr_is G_TLV 0 "len(a)" && gexpr_is G_TLV 1 "len(a)" &&
-   gexpr_is G_NewTLV 0 "len(tlvValue)" && gexpr_is G_NewTLV 1 "len(tlvValue)" &&
-   gexpr_is G_NewIPv6Prefix 0 "len(prefix.IP)" && gexpr_is G_NewIPv6Prefix 1 "bits" && gexpr_is G_NewIPv6Prefix 2 "i" &&
-   gexpr_is G_IPv6Prefix 0 "len(a)" && gexpr_is G_IPv6Prefix 1 "len(a)" && gexpr_is G_IPv6Prefix 2 "prefixLength")%bool = true.
+  (gexpr_is G_Integer 0 "len($0)" && gexpr_is G_Short 0 "len($0)" && gexpr_is G_Integer64 0 "len($0)" &&
+   gexpr_is G_NewString 0 "len($0)" && gexpr_is G_NewBytes 0 "len($0)" && gexpr_is G_IPAddr 0 "len($0)" &&
+   gexpr_is G_IPv6Addr 0 "len($0)" && gexpr_is G_IFID 0 "len($0)" && gexpr_is G_NewIFID 0 "len($0)" &&
+   gexpr_is G_Date 0 "len($0)" && gexpr_is G_NewDate 0 "$0.Unix()" && gexpr_is G_NewDate 1 "$0.Unix()" &&
+   gexpr_is G_VendorSpecific 0 "len($0)" && gexpr_is G_NewVendorSpecific 0 "len($1)" &&
+   gexpr_is G_NewVendorSpecific 1 "len($1)" && gexpr_is G_TLV 0 "len($0)" && gexpr_is G_TLV 1 "len($0)" &&
+   gexpr_is G_NewTLV 0 "len($1)" && gexpr_is G_NewTLV 1 "len($1)" &&
+   gexpr_is G_NewIPv6Prefix 0 "len($0.IP)" && gexpr_is G_NewIPv6Prefix 1 "bits" && gexpr_is G_NewIPv6Prefix 2 "i" &&
+   gexpr_is G_IPv6Prefix 0 "len($0)" && gexpr_is G_IPv6Prefix 1 "len($0)" && gexpr_is G_IPv6Prefix 2 "int($0[1])")%bool = true.
 Proof. guard_shape. Qed.
 Lemma g_Integer_0 x : holds (gd G_Integer 0) x = negb (x =? 4). Proof. reflexivity. Qed.
 Lemma g_Short_0 x : holds (gd G_Short 0) x = negb (x =? 2). Proof. reflexivity. Qed.
@@ -153,8 +153,8 @@ Lemma g_IPv6Prefix_2 x : holds (gd G_IPv6Prefix 2) x = (x >? 128). Proof. reflex
 
 (* ---- client.go ---- *)
 Example shape_Exchange :
-  (gexpr_is G_Client_Exchange 0 "c.Retry" && gexpr_is G_Client_Exchange 1 "c.MaxPacketErrors" &&
-   gexpr_is G_Client_Exchange 2 "c.MaxPacketErrors")%bool = true.
+  (gexpr_is G_Client_Exchange 0 "$r.Retry" && gexpr_is G_Client_Exchange 1 "$r.MaxPacketErrors" &&
+   gexpr_is G_Client_Exchange 2 "$r.MaxPacketErrors")%bool = true.
 Proof. guard_shape. Qed.
 Lemma g_Exchange_0 x : holds (gd G_Client_Exchange 0) x = (x >? 0). Proof. reflexivity. Qed.
 Lemma g_Exchange_1 x : holds (gd G_Client_Exchange 1) x = (x >? 0). Proof. reflexivity. Qed.
